@@ -120,3 +120,15 @@ Section Interp.
     - rewrite lookup_insert_neq in L; [now apply (Ha k')|]. intro; subst; now rewrite String.eqb_refl in E.
   Qed.
 End Interp.
+
+(* self-referential interpolation is reported as a circular reference, for every depth limit *)
+Lemma interp_self_cycle o S di ec k :
+  noclose k -> get_with_var o S di ec k = Ok (VStr ("$""" ++ String "{"%char (k ++ String "}"%char """"))) ->
+  is_interp ("$""" ++ String "{"%char (k ++ String "}"%char """")) = true ->
+  trim_suffix """" (trim_prefix "$""" ("$""" ++ String "{"%char (k ++ String "}"%char """"))) = String "{"%char (k ++ String "}"%char "") ->
+  forall fuel, exists e, p2_string o S di fuel ec ("$""" ++ String "{"%char (k ++ String "}"%char """")) = Err e.
+Proof.
+  intros Hk Hg Hi Ht. induction fuel as [|f [e IH]]; cbn [p2_string]; rewrite Hi; [eexists; reflexivity|].
+  rewrite Ht. change (String "{"%char (k ++ String "}"%char "")) with ("" ++ String "{"%char (k ++ String "}"%char ""))%string.
+  rewrite (scan_ref "" EmptyString k "" Logic.I Hk). cbn [map_res bind]. rewrite Hg. cbn [bind]. rewrite IH. cbn [bind]. eexists; reflexivity.
+Qed.
